@@ -5622,7 +5622,18 @@ def merge_parts(parts, reassign="voice"):
 
     note_arrays = [part.note_array(include_staff=True) for part in parts]
     # find the unique number of voices for each part (voice numbers start from 1)
-    unique_voices = [np.unique(note_array["voice"]) for note_array in note_arrays]
+    # (rests have voices too, possibly voices that no note of the part uses)
+    unique_voices = [
+        np.unique(
+            list(note_array["voice"])
+            + [
+                r.voice
+                for r in part.iter_all(Rest)
+                if r.voice is not None
+            ]
+        ).astype(int)
+        for note_array, part in zip(note_arrays, parts)
+    ]
     # find the unique number of staves for each part
     # (a missing staff counts as staff 1; staves are also used by clefs, words
     # and directions, possibly on staves without notes)
